@@ -742,6 +742,17 @@ class BufferMachine(object):
                 room = dst.has_capacity_for(size)
                 gen = buf.move_hot_to_cold(0) if k == 'h2c' else buf.move_cold_to_hot(0)
                 self._next_move_size = size
+                if conc and not room:
+                    # no room: must be refused whatever else is in flight
+                    p = _start(self, gen)
+                    self.in_op = False
+                    res.faults['F8:move_no_room_refused'] += 1
+                    if not p.triggered or p.value is not False:
+                        res.viol('C18', 'move_without_room_not_refused', '%s size %s dst free %s (another move or ingest in flight)' % (
+                            k, size, dfree0), site='concurrent')
+                    elif self.snapshot() != before:
+                        res.viol('C18', 'refused_move_changed_state', 'no room: %s -> %s' % (before, self.snapshot()), site='noroom:concurrent')
+                    return
                 if conc:
                     res.probes['concurrent_move'] += 1
                     self.in_op = False
